@@ -93,7 +93,7 @@ theorem update_statements_rep (Rep : List ν → List σ → Prop) (gen : σ →
 
 /-! ### the groups of `_index_statements_diff` -/
 
-theorem dropDel_append' (d e : List (Op σ)) : dropDel (d ++ e) = dropDel d ++ dropDel e := by
+theorem dropDel_append_nodec (d e : List (Op σ)) : dropDel (d ++ e) = dropDel d ++ dropDel e := by
   simp [dropDel]
 
 theorem groupStmts_append (a b : List (Group σ)) : groupStmts (a ++ b) = groupStmts a ++ groupStmts b := by
@@ -157,7 +157,7 @@ theorem index_diff_statements : ∀ (ops : List (Op σ)) (last : Nat) (idx : Lis
             obtain ⟨gs', hg', rfl⟩ := h
             have := ih nj idx' none gs' hg'
             simp only [List.nil_append] at this ⊢
-            rw [groupStmts_append, groupStmts_flush, this, ← dropDel_append']
+            rw [groupStmts_append, groupStmts_flush, this, ← dropDel_append_nodec]
             rfl
           · simp only [he, if_false] at h
             have := ih last idx' (some (ni, nj, sj - si - 1, [(op, s)])) gs h
@@ -170,7 +170,7 @@ theorem index_diff_statements : ∀ (ops : List (Op σ)) (last : Nat) (idx : Lis
         obtain ⟨gs', hg', rfl⟩ := h
         have := ih nj idx none gs' hg'
         simp only [List.nil_append] at this
-        rw [groupStmts_append, groupStmts_flush, this, ← dropDel_append']
+        rw [groupStmts_append, groupStmts_flush, this, ← dropDel_append_nodec]
         simp [List.append_assoc]
       · simp only [he, if_false] at h
         have := ih last idx _ gs h
